@@ -38,6 +38,11 @@ CLAIMS = {
             "equal-key neighbour, that all lookup keys are built from one input's own (namespace,type,id), that notifications get a fresh "
             "slice, the export table, and that a rejected registration is rolled back exactly on the constructor-failure path and that "
             "delivery is nil-safe. The sorted-merge algorithm of UpdateInputs is not decided.", "§3 C17"),
+    "C18": ("writer/reader table and constant agreement + decoder bounds (guard normal forms) + error-propagation and AEAD-discipline path-cuts",
+            "Claims only the structural necessary conditions of the codec property: inverse text tables, equal key/field sets on both sides, "
+            "agreeing framing constants, length guards in front of every constant access to input bytes, panics confined to a converting "
+            "recover, every layer propagating the inner error, AEAD nonce/Open/version discipline, and no aliasing of compressor state. "
+            "decode(encode(x)) == x for all inputs and totality of third-party decoders are NOT decided.", "§3 C18"),
     "C19": ("value provenance (fresh-copy) analysis on go/ssa + copy-on-write path-cut + who-may-write for raw maps",
             "Decides that nothing but DeepCopy results enters or leaves the store and the read cache, that every in-place write of the "
             "copy-on-write metadata containers targets storage created in the same call, that the module's DeepCopy implementations copy "
